@@ -74,6 +74,9 @@ func (u *Unit) invoke(fr *Frame, st *State, x *ssa.Call) *State {
 	case "github.com/veraison/go-cose.Verifier.Verify":
 		content := u.bytesOf(st, args[0].T)
 		sg := u.bytesOf(st, args[1].T)
+		// ghost counter of verifier invocations
+		ve := u.comp(st, "vepoch")
+		u.setComp(st, "vepoch", Add(ve, IntLit(1)))
 		err := u.define("verifyres", App(SAny, "verifier_verify", recv, content, sg))
 		u.assume(st.pc, App(SBool, "any_ok", err, alloc()))
 		fr.vals[x] = &Val{T: err}
@@ -141,6 +144,8 @@ func (u *Unit) invokeMods(x *ssa.Call, set map[string]bool) {
 	case "github.com/veraison/go-cose.Signer.Sign", "crypto.Signer.Sign":
 		set["alloc"] = true
 		set["epoch"] = true
+	case "github.com/veraison/go-cose.Verifier.Verify":
+		set["vepoch"] = true
 	case "hash.Hash.Write", "io.Writer.Write":
 		set["G:(Array Int Bytes):hashbuf"] = true
 	case "hash.Hash.Sum":
